@@ -334,6 +334,27 @@ pub fn run(ctx: &Ctx, rep: &mut Report) {
             }
         }
         let defs = gen_defs(&mut rng, nid, &pool[0..3]);
+        // every other world: the provider is configured with a class table of its own (`charDef`); the tokenizer's
+        // char.def then carries the same ranges but other invoke / group / length columns, which nobody must read
+        let own_class_table = rng.chance(1, 2);
+        let tokenizer_char_def = if own_class_table {
+            let nl = if defs.char_def.contains("\r\n") { "\r\n" } else { "\n" };
+            let mut t = String::new();
+            for line in defs.char_def.split(nl) {
+                let cols: Vec<&str> = line.split(' ').collect();
+                if cols.len() == 4 && !line.starts_with("0x") && !line.starts_with('#') {
+                    let flip = |c: &str| if c == "1" { "0" } else { "1" };
+                    let len: u32 = cols[3].parse().unwrap_or(0);
+                    t.push_str(&format!("{} {} {} {}", cols[0], flip(cols[1]), flip(cols[2]), (len + 1 + rng.below(2) as u32) % 4));
+                } else {
+                    t.push_str(line);
+                }
+                t.push_str(nl);
+            }
+            t
+        } else {
+            defs.char_def.clone()
+        };
         // provider stack
         let mut providers: Vec<Provider> = vec![];
         let mut oov_cfg: Vec<Value> = vec![];
@@ -342,7 +363,7 @@ pub fn run(ctx: &Ctx, rep: &mut Report) {
         for o in order {
             if o == 0 && rng.chance(4, 5) {
                 providers.push(Provider::MeCab);
-                oov_cfg.push(json!({"class": format!("{}MeCabOovPlugin", CLS), "charDef": "char.def", "unkDef": "unk.def"}));
+                oov_cfg.push(json!({"class": format!("{}MeCabOovPlugin", CLS), "charDef": if own_class_table { "oov-classes.def" } else { "char.def" }, "unkDef": "unk.def"}));
             }
             if o == 1 && rng.chance(1, 2) {
                 let re = rng.s(&["[a-zZ]+[0-9]*", "[0-9ab]+", "[アイー]{2,}", "(漢|字|々)+", ".{70}", "a?", "a{64}", "[あい]{64}", "1{65}", ".{64}"]).to_string();
@@ -359,13 +380,16 @@ pub fn run(ctx: &Ctx, rep: &mut Report) {
         let spos = pool[rng.below(3)].clone();
         providers.push(Provider::Simple { left: sl, right: sr, cost: sc, pos: spos.clone() });
         let mut p = PluginOpts::none();
-        p.char_def = Some(defs.char_def.clone());
+        p.char_def = Some(tokenizer_char_def.clone());
         p.simple = (sl as i64, sr as i64, sc as i64);
         // build_world_from writes its own unk.def and uses pool[2] for the simple provider: override through a custom config below
         let world = match guard(|| {
             let mut w = build_world_from(&mut rng, &dopts, matrix, sys, p, Place::Owned)?;
             // reload with the C13 provider stack and definition files
             w.res.write("unk.def", &defs.unk_def);
+            if own_class_table {
+                w.res.write("oov-classes.def", &defs.char_def);
+            }
             w.unk_def = defs.unk_def.clone();
             let mut cfg = w.cfg_json.clone();
             let mut oov = oov_cfg.clone();
@@ -388,6 +412,9 @@ pub fn run(ctx: &Ctx, rep: &mut Report) {
             }
         };
         rep.count("definition_sets", 1);
+        if own_class_table && providers.iter().any(|p| matches!(p, Provider::MeCab)) {
+            rep.count("definition_sets_with_a_class_table_of_the_provider", 1);
+        }
         let pos_list = &world.dict.grammar().pos_list;
         let mut t = Tok::new(&world.dict, Mode::C);
         for ti in 0..60 {
